@@ -91,6 +91,31 @@ def run(ctx):
                 "events": [{k: v for k, v in e.items() if k not in ("cells",)} for e in traces[0]["ev"][:3]]})
     ctx.extra["combos"] = sorted({f"{j[0]}/{j[1]}" for j in jobs})
     ec.validate(ctx, traces, ec.default_sig("evo"), ec.default_what)
+    # ---- tournament rounds: every agent handed out by TournamentSelection.select (elite and members) is a clone; the same
+    # projection, validated against EvoSelect_Trace; only the clone clauses are C01's (the ranking clauses are C05's)
+    from . import c05
+    C01_CLAUSES = ("members are faithful copies of their parents", "the elite is a faithful copy", "the old population is left untouched",
+                   "no storage shared between old and new agents")
+    sjobs = []
+    hists = [[[1], [1], [1]], [[-1, 2], [2, -1], [0]], [[3], [1, 1, 4], [2, 2]]]
+    for j, algo in enumerate(["DQN", "DDPG", "NeuralUCB"] if quick else ["DQN", "DDPG", "PPO", "NeuralUCB", "MADDPG", "RainbowDQN", "TD3", "IPPO"]):
+        for i, h in enumerate(hists):
+            sjobs.append((algo, 3, 2, 3, (i + j) % 3 != 2, 1 + i, h, 3, ctx.seed + 700 + 3 * j + i))
+    from concurrent.futures import ProcessPoolExecutor
+    with ProcessPoolExecutor(max_workers=8) as ex:
+        straces = list(ex.map(c05._run, sjobs))
+    for jb in sjobs:
+        ctx.case(("select", str(jb)))
+    from .. import trace as trace_mod
+    verdicts = trace_mod.validate("EvoSelect_Trace", c05.TRACE_CFG, straces)
+    ctx.traces_validated += len(straces)
+    ctx.evaluations += len(straces)
+    for t, v in zip(straces, verdicts):
+        cl = (v.clauses[0] if v.clauses else v.invariant) if not v.accepted else ""
+        if not v.accepted and cl in C01_CLAUSES:
+            ctx.violation(f"evo:{t['cfg']['algo']}:select:{cl}",
+                          f"tournament round (generation {v.step}) of real {t['cfg']['algo']} agents: {cl}; cfg={t['cfg']}; event={str(v.event)[:700]}",
+                          {"kind": "rejected-trace", "module": "EvoSelect_Trace", "cfg_text": c05.TRACE_CFG, "trace": t, "step": v.step, "clauses": v.clauses})
     ctx.assume("equal SHA-256 of tensors <=> equal content; learn steps are made deterministic by seeding all RNGs from the batch id")
     ctx.assume("storage sharing is detected through data_ptr() of parameters / buffers / optimizer state and id() of score, fitness, steps lists and hp configuration objects")
     ctx.assume("PPO/DDPG/TD3 are constructed with share_encoders=False (share_encoders=True cannot be constructed under Python 3.12, DESIGN 6-P)")
